@@ -18,6 +18,7 @@ import NemoVerif.Lemmas.GroupCoreVMTemplate
 import NemoVerif.Lemmas.GroupCoreVMEvent
 import NemoVerif.Lemmas.GroupCoreVMPick
 import NemoVerif.Lemmas.GroupCoreVMLoop
+import NemoVerif.Lemmas.GroupCoreVMRun
 namespace NemoVerif.C07
 open NemoVerif NemoVerif.Dnf NemoVerif.GroupExpand NemoVerif.GroupVM
 
@@ -420,6 +421,28 @@ theorem groupvm_is_corevm_partial_or_event_all (fuel : Nat) (s : CoreVM.VM) (f :
       CoreVM.slideUntil (fuel + 4) f (CoreVM.mergingUids us (p1Brs e 0 brs).1) s1 = .ok [(f, r)] s2 ∧ CoreVM.FlowAt s2 f i2 x2 cfg ∧
       x2.ctxOwner = x.ctxOwner ∧ CoreVM.hview i2 = [(r, pe + 1, CoreIndex.HeadStatus.active)] :=
   CoreVM.or_group_event_all fuel s f i x cfg l mu pe fp e r us brs sc0 n I hown S hnm hl1 hMH hadq
+
+/-- **groupvm_is_corevm_partial (pure and-group of any size, EVERY event sequence).**  The events are processed at the level of CoreVM's
+    `slide` (`CoreVM.andDriver`: per event the member heads that wait on it are advanced, a head that became MERGING is advanced again;
+    which heads wait on the event is read off the `GroupVM` member states — in the interpreter the index selects them, C09).  The forking
+    head is handed back while processing `es[k]` iff `k` is the least index such that every atom of the clause that was still awaited
+    (`remMs ms`) occurs in `es[0..k]` — the property statement for and-groups — and never again. -/
+theorem groupvm_is_corevm_partial_and_run (fuel : Nat) (f : CoreIndex.FUid) (x : CoreVM.InstX) (cfg : CoreVM.FlowCfg) (l mu : String)
+    (pe fp : Nat) (r : CoreIndex.HUid) (us : List (CoreIndex.HUid × Nat)) (n : Nat)
+    (hown : x.ctxOwner = none) (C : CoreVM.ClauseShape cfg l mu pe n) (S : CoreVM.MembersShape cfg l pe us)
+    (hndu : (r :: us.map (·.1)).Nodup) (hfu : OMap.lookup mu x.forkUids = some r) (hmu : mu ∉ us.map (·.1)) (hfp : fp ≠ pe + 2)
+    (es : List Nat) (s : CoreVM.VM) (i : CoreIndex.Inst) (ms : List (Nat × MLoc))
+    (F : CoreVM.FlowAt s f i x cfg) (hmn : ms.length = n) (hun : us.length = n) (hq : QMs ms) (hrem : remMs ms ≠ [])
+    (hv : CoreVM.hview i = (r, fp, CoreIndex.HeadStatus.inactive) :: CoreVM.renderU (pe + 1) us ms)
+    (hhx : ((OMap.lookup (f, r) s.r.hx).getD {}).childHeadUids = us.map (·.1))
+    (hleaf : ∀ c ∈ us.map (·.1), ((OMap.lookup (f, c) s.r.hx).getD {}).childHeadUids = []) :
+    ∃ s' bs, CoreVM.andDriver fuel f us n ms false es s = .ok bs s' ∧
+      ∀ k, bs[k]? = some true ↔
+        (k < es.length ∧ sat [remMs ms] (es.take (k + 1)) = true ∧ ∀ j, j < k → sat [remMs ms] (es.take (j + 1)) = false) := by
+  obtain ⟨s', hs'⟩ := CoreVM.and_group_run fuel f x cfg l mu pe fp r us n hown C S hndu hfu hmu hfp es s i ms F hmn hun hq hrem hv hhx hleaf
+  refine ⟨s', _, hs', fun k => ?_⟩
+  have := run_spec [remMs ms] es [] k
+  simpa [remaining_nil] using this
 
 /-! ## the expanded element list -/
 
@@ -873,5 +896,15 @@ example :=
       hmu := by decide, hfp := by decide, hns := by decide }
     rfl (by intro u hu; simp at hu; rcases hu with rfl | rfl <;> exact ⟨rfl, by decide⟩)
     rfl (by decide) (by decide) ⟨by decide, Or.inr trivial⟩
+
+-- non-vacuity of `groupvm_is_corevm_partial_and_run`: `match E0() and E1()` with both member heads on their match elements; ANY event sequence
+example (es : List Nat) :=
+  groupvm_is_corevm_partial_and_run 1 "m" exXFork exCfgAnd "e" "u" 13 2 "h0" [("h1", 4), ("h2", 7)] 2 rfl
+    { hl := rfl, hsize := by decide, hw := rfl, hm := rfl }
+    (by intro u hu; simp at hu; rcases hu with rfl | rfl <;> exact ⟨rfl, by decide⟩)
+    (by decide) rfl (by decide) (by decide) es (exVMFull exCfgAnd) exInst [(0, .atMatch), (1, .atMatch)]
+    { hi := rfl, hx := rfl, hc := rfl } rfl rfl
+    (by intro m hm; simp at hm; rcases hm with rfl | rfl <;> exact Or.inl rfl) (by decide) rfl rfl
+    (by intro c hc; simp at hc; rcases hc with rfl | rfl <;> rfl)
 
 end NemoVerif.C07
